@@ -21,6 +21,10 @@ inductive VRes (α : Type)
   | err (e : VErr)
 deriving Repr, DecidableEq
 
+def VRes.isOk {α : Type} : VRes α → Bool
+  | .ok _ => true
+  | .err _ => false
+
 /-! ### integers -/
 
 /-- decimal value of a non-empty run of ASCII digits -/
